@@ -113,7 +113,7 @@ def _one_run(run: dict) -> dict:
         if run.get("gen_calls"):
             # several generate_all calls on the SAME generator objects (library use), into the same output directory
             for call in run["gen_calls"]:
-                kw = dict(is_dryrun=False, allow_overwrite=True, omit_serialization_support=bool(call.get("omit")),
+                kw = dict(is_dryrun=bool(call.get("dry")), allow_overwrite=True, omit_serialization_support=bool(call.get("omit")),
                           embed_auditing_info=bool(call.get("audit")))
                 if runner._should_generate_support():
                     runner._support_generator.generate_all(**kw)
@@ -213,6 +213,7 @@ def history_stream(ctx, repo_src, root, lookups, langs, edits_spec, quick=True, 
         # S5 the same generator objects: omit serialization support off then on / on then off; auditing on then off
         scen.append(("same-generator-omit-off-then-on", lambda b, o: [make_run(argv(lang, b, o[0]), o[0], scratch / "cwd", gen_calls=[{"omit": False}, {"omit": True}])], (), None, {"omit": True}))
         scen.append(("same-generator-omit-on-then-off", lambda b, o: [make_run(argv(lang, b, o[0]), o[0], scratch / "cwd", gen_calls=[{"omit": True}, {"omit": False}])], (), None, {"omit": False}))
+        scen.append(("same-generator-dry-run-then-generate", lambda b, o: [make_run(argv(lang, b, o[0]), o[0], scratch / "cwd", gen_calls=[{"dry": True}, {}])], (), None, {}))
         scen.append(("same-generator-auditing-on-then-off", lambda b, o: [make_run(argv(lang, b, o[0]), o[0], scratch / "cwd", gen_calls=[{"audit": True}, {"audit": False}])], (), None, {}))
         if not quick:
             scen.append(("edit-nested-type-second-generation", lambda b, o: [make_run(argv(lang, b, o[0]), o[0], scratch / "cwd"),
